@@ -102,7 +102,7 @@ def extrapolate_templates(sid_templates: Mapping[str, str], to_extrapolate: List
                 key = part.split(':')[0].replace('{', '').replace('}', '')
 
                 # building the new type and template
-                new_type = sid_type.replace(keytype, key)
+                new_type = sid_type.split(sidtype_keytype_sep)[0] + sidtype_keytype_sep + key  # basetype + separator + key
                 new_template = '/'.join(parts[:len(parts)-i])
 
                 # we skip if template is already defined by another type
